@@ -87,7 +87,7 @@ theorem stopStage_inv {wf exc s} (k : Nat) (hI : Inv wf exc s) :
 theorem killAll_inv {wf exc s} (hI : Inv wf exc s) :
     Inv wf exc (killAll wf s) ∧ Mono s (killAll wf s) := by
   unfold killAll
-  have h0 : Inv wf exc { s with stop := true } := ⟨hI.ci, hI.cur0⟩
+  have h0 : Inv wf exc { s with stop := true } := ⟨hI.ci, hI.curLe⟩
   have hm0 : Mono s { s with stop := true } := ⟨fun _ h => h, fun _ _ h => h, rfl⟩
   refine foldl_inv (fun t => Inv wf exc t ∧ Mono s t) _ wf.order ?_ _ ⟨h0, hm0⟩
   intro t c hc ⟨hIt, hMt⟩
@@ -116,7 +116,7 @@ theorem deliverFin_inv {wf s} (c : Nat) (hI : Inv wf none s) :
         Inv wf none { t with done := fun j => decide (j = c) || t.done j } ∧
         Mono s { t with done := fun j => decide (j = c) || t.done j } := by
       intro t hIt hMt
-      refine ⟨⟨fun j => ?_, hIt.cur0⟩, ⟨hMt.staged, hMt.ctrl, hMt.cur⟩⟩
+      refine ⟨⟨fun j => ?_, hIt.curLe⟩, ⟨hMt.staged, hMt.ctrl, hMt.cur⟩⟩
       have h := hIt.ci j
       show CI wf none j (t.comp j) (decide (j = c) || t.done j) t.pending
       refine { h with k5 := ?_, k6 := ?_, k8 := ?_ }
@@ -179,7 +179,8 @@ theorem schedPass_inv {wf exc s} (hI : Inv wf exc s) :
   · exact ⟨h1, h2⟩
   · exact ⟨launch_inv _ h1 h3, h2.trans (launch_mono ..)⟩
 
-theorem step_inv {wf s} (op : Op) (hI : Inv wf none s) :
+/-- every operation except the stage transition -/
+theorem step_inv' {wf s} (op : Op) (hop : op ≠ .next) (hI : Inv wf none s) :
     Inv wf none (step wf s op) ∧ Mono s (step wf s op) := by
   cases op with
   | sched => exact schedPass_inv hI
@@ -188,6 +189,27 @@ theorem step_inv {wf s} (op : Op) (hI : Inv wf none s) :
   | pm c => exact ⟨deliverPM_inv c hI, deliverPM_mono c hI⟩
   | kill => exact killAll_inv hI
   | tick c => exact ⟨hI, Mono.refl s⟩
+  | next => exact absurd rfl hop
+
+theorem advance_comp (wf : Wf) (s : St) :
+    (advance wf s).comp = s.comp ∧ (advance wf s).done = s.done ∧ (advance wf s).pending = s.pending := by
+  unfold advance; split <;> exact ⟨rfl, rfl, rfl⟩
+
+/-- the stage transition touches no component, `comp_done` or the queue, and does not run past the
+last stage -/
+theorem advance_inv {wf exc s} (hI : Inv wf exc s) : Inv wf exc (advance wf s) ∧ MonoC s (advance wf s) := by
+  unfold advance
+  split
+  · rename_i hca
+    simp only [canAdvance, Bool.and_eq_true, decide_eq_true_eq] at hca
+    exact ⟨⟨hI.ci, Nat.succ_le_of_lt hca.1.2⟩, ⟨fun _ h => h, fun _ _ h => h⟩⟩
+  · exact ⟨hI, MonoC.refl s⟩
+
+theorem step_inv {wf s} (op : Op) (hI : Inv wf none s) :
+    Inv wf none (step wf s op) ∧ MonoC s (step wf s op) := by
+  by_cases hop : op = .next
+  · subst hop; exact advance_inv hI
+  · exact ⟨(step_inv' op hop hI).1, (step_inv' op hop hI).2.toC⟩
 
 theorem run_from_inv {wf} (ops : List Op) : ∀ s, Inv wf none s → Inv wf none (ops.foldl (step wf) s) := by
   induction ops with
@@ -196,5 +218,10 @@ theorem run_from_inv {wf} (ops : List Op) : ∀ s, Inv wf none s → Inv wf none
 
 theorem run_inv (wf : Wf) (ops : List Op) : Inv wf none (run wf ops) :=
   run_from_inv ops init (inv_init wf)
+
+theorem run_from_monoC {wf} (ops : List Op) : ∀ s, Inv wf none s → MonoC s (ops.foldl (step wf) s) := by
+  induction ops with
+  | nil => intro s _; exact MonoC.refl s
+  | cons op ops ih => intro s h; exact (step_inv op h).2.trans (ih _ (step_inv op h).1)
 
 end St4sd.C02L
